@@ -16,7 +16,7 @@ T_Asymmetric  == (dt <= 128 /\ a # b) => ~(Fresh(a, b, 0, dt) /\ Fresh(b, a, 0, 
 T_TotalButHalf == (dt <= 128 /\ a # b /\ a - b # W /\ b - a # W) => (Fresh(a, b, 0, dt) \/ Fresh(b, a, 0, dt))
 T_TimeoutWins == dt > 128 => Fresh(a, b, 0, dt)
 Evs == {[e |-> "register", k |-> k, kind |-> "none", seq |-> 0] : k \in Obs}
-       \cup {[e |-> "first", k |-> k, kind |-> kd, seq |-> s] : k \in Obs, kd \in {"ok", "ok", "noobs", "err"}, s \in Vals}
+       \cup {[e |-> "first", k |-> k, kind |-> kd, seq |-> s] : k \in Obs, kd \in {"ok", "noobs", "err", "err2xx"}, s \in Vals}
        \cup {[e |-> "notify", k |-> k, kind |-> "none", seq |-> s] : k \in Obs, s \in Vals}
        \cup {[e |-> "cancel", k |-> k, kind |-> "none", seq |-> 0] : k \in Obs}
        \cup {[e |-> "cancelgiveup", k |-> k, kind |-> "none", seq |-> 0] : k \in Obs}
